@@ -17,7 +17,7 @@ import re
 import subprocess
 
 import gen_cases
-from common import (HARNESS_BIN, SPEC, WORK, ToolError, build_harness, known_findings, log, read_ndjson,
+from common import (HARNESS_BIN, SPEC, WORK, ToolError, build_harness, harness_env, known_findings, log, read_ndjson,
                     require_ok, run_harness, seed, tlc, tlc_lines, write_ndjson)
 
 
@@ -151,8 +151,8 @@ def selftest_runner():
     cin = os.path.join(WORK, "selftest_cases.ndjson")
     tout = os.path.join(WORK, "selftest_trace.ndjson")
     write_ndjson(cin, cases)
-    r = subprocess.run([HARNESS_BIN, "drive", cin, tout], stdout=subprocess.PIPE, stderr=subprocess.PIPE,
-                       text=True, timeout=1800)
+    r = subprocess.run([HARNESS_BIN], env=harness_env(["drive", cin, tout]), stdout=subprocess.PIPE,
+                       stderr=subprocess.PIPE, text=True, timeout=1800)
     if r.returncode != 0:
         raise ToolError("harness drive failed: " + r.stderr[-1500:])
     recs = read_ndjson(tout)
